@@ -60,19 +60,7 @@ def _inlinable(fn):
             return False
         if isinstance(n, (ast.Global, ast.Nonlocal)):
             return False
-    # no return inside a loop of the helper
-
-    def ret_in_loop(node, in_loop):
-        for ch in ast.iter_child_nodes(node):
-            if isinstance(ch, FUNC + (ast.Lambda, ast.ClassDef)):
-                continue
-            if isinstance(ch, ast.Return) and in_loop:
-                return True
-            if ret_in_loop(ch, in_loop or isinstance(
-                    ch, (ast.For, ast.While, ast.AsyncFor))):
-                return True
-        return False
-    return not ret_in_loop(fn, False)
+    return True
 
 
 def _returns(body):
@@ -230,7 +218,7 @@ class _Inliner(object):
             if not rets:
                 new = binds + body
             else:
-                new = binds + [self.once(body, None)]
+                new = binds + _aslist(self.once(body, None))
         else:   # Assign
             tg = target_stmt.targets
             if len(rets) == 1 and body and body[-1] is rets[0] and \
@@ -238,7 +226,7 @@ class _Inliner(object):
                 new = binds + body[:-1] + [ast.Assign(
                     targets=copy.deepcopy(tg), value=rets[0].value)]
             else:
-                new = binds + [self.once(body, tg)]
+                new = binds + _aslist(self.once(body, tg))
         self.count += 1
         out = pre + new + rest
         # helpers calling new helpers
@@ -247,27 +235,63 @@ class _Inliner(object):
         return out
 
     def once(self, body, targets):
-        """Single-pass loop: return X -> targets = X; break."""
-        class R(ast.NodeTransformer):
-            def visit_FunctionDef(self, n):
-                return n
-            visit_AsyncFunctionDef = visit_Lambda = visit_ClassDef = \
-                visit_FunctionDef
+        """Single-pass loop: ``return X`` -> ``targets = X; break``.  A return
+        inside a loop of the helper additionally sets a flag that is tested
+        right after that loop (``if flag: break``), so control leaves every
+        enclosing loop of the helper as the return did."""
+        self.tmp += 1
+        flag = '__ret%d' % self.tmp
+        used_flag = [False]
 
-            def visit_Return(self, n):
-                out = []
-                if targets is not None:
-                    out.append(ast.Assign(
-                        targets=copy.deepcopy(targets),
-                        value=n.value if n.value is not None
-                        else ast.Constant(value=None)))
-                elif n.value is not None:
-                    out.append(ast.Expr(value=n.value))
-                out.append(ast.Break())
-                return out
-        holder = ast.Module(body=body, type_ignores=[])
-        R().visit(holder)
-        body = holder.body
+        def ret_stmts(n, in_loop):
+            out = []
+            if targets is not None:
+                out.append(ast.Assign(
+                    targets=copy.deepcopy(targets),
+                    value=n.value if n.value is not None
+                    else ast.Constant(value=None)))
+            elif n.value is not None:
+                out.append(ast.Expr(value=n.value))
+            if in_loop:
+                used_flag[0] = True
+                out.append(ast.Assign(
+                    targets=[ast.Name(id=flag, ctx=ast.Store())],
+                    value=ast.Constant(value=True)))
+            out.append(ast.Break())
+            return out
+
+        def has_return(node):
+            for ch in ast.walk(node):
+                if isinstance(ch, ast.Return):
+                    return True
+            return False
+
+        def block(stmts, in_loop):
+            out = []
+            for st in stmts:
+                if isinstance(st, FUNC + (ast.ClassDef,)):
+                    out.append(st)
+                    continue
+                if isinstance(st, ast.Return):
+                    out.extend(ret_stmts(st, in_loop))
+                    continue
+                is_loop = isinstance(st, (ast.For, ast.While, ast.AsyncFor))
+                contains = is_loop and has_return(st)
+                for fld in ('body', 'orelse', 'finalbody'):
+                    b = getattr(st, fld, None)
+                    if isinstance(b, list) and b and isinstance(
+                            b[0], ast.stmt):
+                        setattr(st, fld, block(
+                            b, in_loop or (is_loop and fld == 'body')))
+                for h in getattr(st, 'handlers', []) or []:
+                    h.body = block(h.body, in_loop)
+                out.append(st)
+                if contains:
+                    out.append(ast.If(
+                        test=ast.Name(id=flag, ctx=ast.Load()),
+                        body=[ast.Break()], orelse=[]))
+            return out
+        body = block(body, False)
         if targets is not None and not _always_exits_or_breaks(body):
             body.append(ast.Assign(targets=copy.deepcopy(targets),
                                    value=ast.Constant(value=None)))
@@ -276,6 +300,10 @@ class _Inliner(object):
                                       ctx=ast.Load()),
                        body=body or [ast.Pass()], orelse=[])
         loop._once = True
+        if used_flag[0]:
+            init = ast.Assign(targets=[ast.Name(id=flag, ctx=ast.Store())],
+                              value=ast.Constant(value=False))
+            return [init, loop]
         return loop
 
     def first_call(self, stmt, cls):
@@ -381,6 +409,10 @@ class _Replace(ast.NodeTransformer):
         if node is self.old:
             return ast.copy_location(self.new, node)
         return self.generic_visit(node)
+
+
+def _aslist(x):
+    return x if isinstance(x, list) else [x]
 
 
 def _always_exits(body):
